@@ -12,6 +12,7 @@ import (
 	"golang.org/x/crypto/sha3"
 	"math/big"
 	"strings"
+	"sync"
 	"testing"
 
 	"github.com/cloudflare/circl/sign"
@@ -333,6 +334,19 @@ func TestC02Schemes(t *testing.T) {
 					long := ctx + strings.Repeat("c", 256-len(ctx)+rapid.IntRange(0, 3).Draw(t, "over"))
 					ol := &sign.SignatureOpts{Context: long}
 					expectReject(t, sub, name, "ctx-too-long", func(m, sg []byte) bool { return s.Verify(pk, m, sg, ol) }, msg, sig, []byte(long))
+					// the longest admissible context, differing in its last / first byte only (fixed-size dom buffers)
+					{
+						c255 := strings.Repeat("m", 254) + "x"
+						s255 := s.Sign(sk, msg, &sign.SignatureOpts{Context: c255})
+						for _, alt := range []string{strings.Repeat("m", 254) + "y", "n" + c255[1:], c255[:254], c255[:127] + "Z" + c255[128:]} {
+							oa := &sign.SignatureOpts{Context: alt}
+							expectReject(t, sub, name, "other-ctx-255", func(m, sg []byte) bool { return s.Verify(pk, m, sg, oa) }, msg, s255, []byte(alt))
+						}
+						if !s.Verify(pk, msg, s255, &sign.SignatureOpts{Context: c255}) {
+							vlib.Report(t, "C02/completeness/"+name+"/ctx-255", "honest signature under a 255-byte context rejected")
+							return
+						}
+					}
 					// a one-byte length field that wraps: the signature a verifier would accept if it encoded
 					// len(ctx) mod 256 — made under the context long[:n%256] on the message long[n%256:]‖msg
 					{
@@ -584,6 +598,18 @@ func TestC02EdVariants(t *testing.T) {
 						return
 					}
 					expectReject(t, sub, v.name, "other-ctx", func(m, sg []byte) bool { return v.verify(pk, m, sg, ctx2) }, msg, sig, []byte(ctx2))
+					{
+						c255 := strings.Repeat("m", 254) + "x"
+						s255 := v.sign(seed, msg, c255)
+						for _, alt := range []string{strings.Repeat("m", 254) + "y", "n" + c255[1:], c255[:254], c255[:127] + "Z" + c255[128:]} {
+							alt := alt
+							expectReject(t, sub, v.name, "other-ctx-255", func(m, sg []byte) bool { return v.verify(pk, m, sg, alt) }, msg, s255, []byte(alt))
+						}
+						if !v.verify(pk, msg, s255, c255) {
+							vlib.Report(t, "C02/completeness/"+v.name+"/ctx-255", "honest signature under a 255-byte context rejected")
+							return
+						}
+					}
 					long := strings.Repeat("L", 256+rapid.IntRange(0, 2).Draw(t, "over"))
 					expectReject(t, sub, v.name, "ctx-too-long", func(m, sg []byte) bool { return v.verify(pk, m, sg, long) }, msg, sig, []byte(long))
 					var sl []byte
@@ -896,30 +922,37 @@ func TestC02BLS(t *testing.T) {
 // of a stream of messages under a fixed key must have the advertised size and verify.
 func TestC02Volume(t *testing.T) {
 	defer vlib.Done()
+	var wg sync.WaitGroup
 	for si, s := range schemes.All() {
+		si, s := si, s
 		name := s.Name()
 		if !strings.Contains(name, "Dilithium") && !strings.Contains(name, "ML-DSA") {
 			continue
 		}
-		sub := "volume/" + name
-		n := vlib.N(2500, 20000)
-		seed := make([]byte, s.SeedSize())
-		vlib.ExpandInto(seed, uint64(vlib.Seed)*1009+uint64(vlib.Shard)*31+uint64(si))
-		pk, sk := s.DeriveKey(seed)
-		msg := make([]byte, 16)
-		for i := 0; i < n; i++ {
-			vlib.ExpandInto(msg, uint64(vlib.Seed)<<40|uint64(vlib.Shard)<<32|uint64(i))
-			sig := s.Sign(sk, msg, nil)
-			vlib.Eval(sub)
-			if len(sig) != s.SignatureSize() || !s.Verify(pk, msg, sig, nil) {
-				vlib.ReportDirect(t, "C02/completeness/"+name, fmt.Sprintf("honest signature rejected: seed=%x msg=%x", seed, msg),
-					map[string]interface{}{"scheme": name, "seed": fmt.Sprintf("%x", seed), "msg": fmt.Sprintf("%x", msg)})
-				break
+		wg.Add(1)
+		go func() { // the schemes are independent: one goroutine each
+			defer wg.Done()
+			sub := "volume/" + name
+			n := vlib.N(9000, 20000)
+			seed := make([]byte, s.SeedSize())
+			vlib.ExpandInto(seed, uint64(vlib.Seed)*1009+uint64(vlib.Shard)*31+uint64(si))
+			pk, sk := s.DeriveKey(seed)
+			msg := make([]byte, 16)
+			for i := 0; i < n; i++ {
+				vlib.ExpandInto(msg, uint64(vlib.Seed)<<40|uint64(vlib.Shard)<<32|uint64(i))
+				sig := s.Sign(sk, msg, nil)
+				if len(sig) != s.SignatureSize() || !s.Verify(pk, msg, sig, nil) {
+					vlib.ReportDirect(t, "C02/completeness/"+name, fmt.Sprintf("honest signature rejected: seed=%x msg=%x", seed, msg),
+						map[string]interface{}{"scheme": name, "seed": fmt.Sprintf("%x", seed), "msg": fmt.Sprintf("%x", msg)})
+					break
+				}
 			}
-		}
-		vlib.NonTrivial(sub, "stream", seed)
-		vlib.Sample(sub, "stream", fmt.Sprintf("scheme=%s seed=%x: %d messages signed and verified", name, seed, n))
+			vlib.EvalN(sub, int64(n))
+			vlib.NonTrivial(sub, "stream", seed)
+			vlib.Sample(sub, "stream", fmt.Sprintf("scheme=%s seed=%x: %d messages signed and verified", name, seed, n))
+		}()
 	}
+	wg.Wait()
 }
 
 // TestC02EdVolume: S + L (and S + k·L) must be rejected for EVERY signature, not only for most: a
